@@ -450,6 +450,20 @@ PYDANTIC_CONFIG_DEFAULTS = {"extra": "ignore", "frozen": False, "str_strip_white
                             "arbitrary_types_allowed": False, "use_enum_values": False, "validate_default": False, "revalidate_instances": "never",
                             "coerce_numbers_to_str": False, "protected_namespaces": ("model_",)}
 # special methods that change how instances compare, hash, test true, iterate or are built: part of a model's declaration
+def _REFERENCE_CLASS_NAMES():
+    global _REF_CLASSES
+    try:
+        return _REF_CLASSES
+    except NameError:
+        import json as _json
+        try:
+            d = _json.load(open(os.path.join(VERIF, "sa", "pinned_decls.json")))
+            _REF_CLASSES = {k.split(":")[-1] for k in d.get("classes", {})} | {k.split(":")[-1] for k in d.get("models", {})}
+        except Exception:  # noqa: BLE001
+            _REF_CLASSES = set()
+        return _REF_CLASSES
+
+
 PROTOCOL_METHODS = {"__eq__", "__ne__", "__hash__", "__len__", "__bool__", "__iter__", "__getitem__", "__contains__", "__lt__", "__le__",
                     "__gt__", "__ge__", "__getattr__", "__setattr__", "__init__", "model_post_init", "__post_init__", "__new__"}
 CONSTRAINT_KEYS = ("ge", "gt", "le", "lt", "min_length", "max_length", "min_items", "max_items", "pattern", "regex", "multiple_of", "strict",
@@ -550,7 +564,19 @@ def model_decl(index, models, ci, summ=None):
                           "constraints": {k: _const_of(v, index, f.owner.module) for k, v in f.field_kwargs.items() if k in CONSTRAINT_KEYS},
                           "default": None if f.default is None else _const_of(f.default, index, f.owner.module),
                           "factory": None if f.default_factory is None else ast.unparse(f.default_factory)}
-    protocol = sorted(n for n in ci.methods if n in PROTOCOL_METHODS)
+    protocol = {n for n in ci.methods if n in PROTOCOL_METHODS}
+    # ... also supplied as a class-level value (`__hash__ = hash_by("uuid")`) or by a base class of the package that the reference tree
+    # does not have (a shared `IdentifiedModel`): the class still has the method, what it computes is the business of the property's rule
+    for st in ci.node.body:
+        tg = st.targets if isinstance(st, ast.Assign) else ([st.target] if isinstance(st, ast.AnnAssign) and st.value is not None else [])
+        protocol |= {t_.id for t_ in tg if isinstance(t_, ast.Name) and t_.id in PROTOCOL_METHODS and not (isinstance(st.value, ast.Constant) and st.value.value is None)}
+    try:
+        for b in ci.mro()[1:]:
+            if b.module.name.startswith("soundevent") and b.name not in _REFERENCE_CLASS_NAMES():
+                protocol |= {n for n in b.methods if n in PROTOCOL_METHODS}
+    except Exception:  # noqa: BLE001
+        pass
+    protocol = sorted(protocol)
     return {"config": cfg, "fields": fields, "protocol": protocol, "hooks": model_hooks(index, models, ci, summ)}
 
 
